@@ -88,6 +88,13 @@ type dtEnum struct {
 	overflow bool
 	// exitCalls: canonical callee names that never return
 	exitCalls map[string]bool
+	// inline: same-package functions a 'return f(...)' may be followed into
+	inline map[*types.Func]*ast.FuncDecl
+	depth  int
+	// getters: methods whose whole body is 'return <receiver>.<field>', printed as the field selection
+	getters map[*types.Func]string
+	// absVars: print variables that have no recorded definition as var<type> instead of by name
+	absVars bool
 }
 
 func newDT(info *types.Info) *dtEnum {
@@ -112,6 +119,9 @@ func (d *dtEnum) canon(p *dtPath, e ast.Expr) string {
 			}
 			if _, isPkg := obj.(*types.PkgName); isPkg {
 				return obj.(*types.PkgName).Imported().Path()
+			}
+			if v, ok := obj.(*types.Var); ok && d.absVars && !v.IsField() && v.Pkg() != nil && v.Parent() != v.Pkg().Scope() {
+				return "var<" + shortType(v.Type()) + ">"
 			}
 		}
 		return x.Name
@@ -140,6 +150,15 @@ func (d *dtEnum) canon(p *dtPath, e ast.Expr) string {
 		ell := ""
 		if x.Ellipsis.IsValid() {
 			ell = "..."
+		}
+		if d.getters != nil {
+			if fn := calleeFunc(d.info, x); fn != nil {
+				if field, ok := d.getters[fn]; ok {
+					if sel, ok := x.Fun.(*ast.SelectorExpr); ok && len(x.Args) == 0 {
+						return d.canon(p, sel.X) + "." + field
+					}
+				}
+			}
 		}
 		name := strings.ReplaceAll(calleeName(d.info, x), modPath+"/", "")
 		if name == "" {
@@ -341,6 +360,28 @@ func (d *dtEnum) stmt(p *dtPath, s ast.Stmt, k func(p *dtPath)) {
 	case *ast.BlockStmt:
 		d.stmts(p, x.List, k)
 	case *ast.ReturnStmt:
+		if len(x.Results) == 1 && d.inline != nil {
+			if call, ok := ast.Unparen(x.Results[0]).(*ast.CallExpr); ok {
+				if fn := calleeFunc(d.info, call); fn != nil {
+					if fd := d.inline[fn]; fd != nil && d.depth < 3 && fd.Recv == nil {
+						// return f(args): continue inside f with its parameters bound to the canonical arguments
+						i := 0
+						for _, f := range fd.Type.Params.List {
+							for _, n := range f.Names {
+								if i < len(call.Args) {
+									p.env[d.info.Defs[n]] = d.canon(p, call.Args[i])
+								}
+								i++
+							}
+						}
+						d.depth++
+						d.stmts(p, fd.Body.List, func(q *dtPath) { d.finish(q, "end") })
+						d.depth--
+						return
+					}
+				}
+			}
+		}
 		for _, r := range x.Results {
 			p.Ret = append(p.Ret, d.canon(p, r))
 		}
@@ -382,11 +423,10 @@ func (d *dtEnum) stmt(p *dtPath, s ast.Stmt, k func(p *dtPath)) {
 			for i, l := range x.Lhs {
 				if id, ok := l.(*ast.Ident); ok {
 					suffix := fmt.Sprintf("#%d", i)
-					if _, isIdx := ast.Unparen(x.Rhs[0]).(*ast.IndexExpr); isIdx && i == 1 {
-						suffix = "#ok"
-					}
-					if _, isTA := ast.Unparen(x.Rhs[0]).(*ast.TypeAssertExpr); isTA && i == 1 {
-						suffix = "#ok"
+					switch ast.Unparen(x.Rhs[0]).(type) {
+					case *ast.IndexExpr, *ast.TypeAssertExpr:
+						// v, ok := m[k] / x.(T): the value is the expression itself
+						suffix = []string{"", "#ok"}[i]
 					}
 					d.bind(p, id, base+suffix)
 				}
@@ -469,6 +509,83 @@ func (d *dtEnum) stmt(p *dtPath, s ast.Stmt, k func(p *dtPath)) {
 			}
 			try(p, 0)
 		})
+	case *ast.TypeSwitchStmt:
+		d.stmt(p, x.Init, func(p *dtPath) {
+			// switch v := E.(type) / switch E.(type)
+			var subject ast.Expr
+			switch a := x.Assign.(type) {
+			case *ast.AssignStmt:
+				if ta, ok := a.Rhs[0].(*ast.TypeAssertExpr); ok {
+					subject = ta.X
+				}
+			case *ast.ExprStmt:
+				if ta, ok := a.X.(*ast.TypeAssertExpr); ok {
+					subject = ta.X
+				}
+			}
+			base := d.canon(p, subject)
+			var clauses []*ast.CaseClause
+			var def *ast.CaseClause
+			for _, c := range x.Body.List {
+				cc := c.(*ast.CaseClause)
+				if cc.List == nil {
+					def = cc
+				} else {
+					clauses = append(clauses, cc)
+				}
+			}
+			bindClause := func(p *dtPath, cc *ast.CaseClause, val string) {
+				if obj := d.info.Implicits[cc]; obj != nil {
+					p.env[obj] = val
+				}
+			}
+			var try func(p *dtPath, i int)
+			try = func(p *dtPath, i int) {
+				if i == len(clauses) {
+					if def != nil {
+						bindClause(p, def, base)
+						d.stmts(p, def.Body, k)
+					} else {
+						k(p)
+					}
+					return
+				}
+				cc := clauses[i]
+				var tryType func(p *dtPath, j int)
+				tryType = func(p *dtPath, j int) {
+					if j == len(cc.List) {
+						try(p, i+1)
+						return
+					}
+					ts := types.ExprString(cc.List[j])
+					atom := base + ".(" + ts + ")#ok"
+					fork := func(v bool) *dtPath {
+						q := p.clone()
+						q.Atoms = append(q.Atoms, dtAtom{atom, v, cc.List[j].Pos(), false, len(p.Steps)})
+						return q
+					}
+					if v, ok := p.atom(atom); ok {
+						if v {
+							bindClause(p, cc, base+".("+ts+")")
+							d.stmts(p, cc.Body, k)
+						} else {
+							tryType(p, j+1)
+						}
+						return
+					}
+					t := fork(true)
+					val := base + ".(" + ts + ")"
+					if len(cc.List) > 1 {
+						val = base
+					}
+					bindClause(t, cc, val)
+					d.stmts(t, cc.Body, k)
+					tryType(fork(false), j+1)
+				}
+				tryType(p, 0)
+			}
+			try(p, 0)
+		})
 	case *ast.ForStmt, *ast.RangeStmt:
 		p.Steps = append(p.Steps, "loop")
 		// anything assigned inside becomes unknown
@@ -518,4 +635,124 @@ func atomsOf(paths []*dtPath) []string {
 	}
 	sort.Strings(out)
 	return out
+}
+
+// envBefore runs the statements of list that precede the statement containing `at` (descending into the
+// block, if, loop or switch clause that contains it) and returns a path that carries only the
+// environment established on the way (single-assignment locals bound to their canonical definitions;
+// anything assigned inside a loop that is entered becomes unknown).
+func (d *dtEnum) envBefore(p *dtPath, list []ast.Stmt, at ast.Node) *dtPath {
+	cur := p
+	for _, s := range list {
+		if s.End() <= at.Pos() {
+			var last *dtPath
+			saved := d.paths
+			d.stmt(cur, s, func(q *dtPath) { last = q })
+			d.paths = saved
+			if last != nil {
+				cur = last
+			}
+			continue
+		}
+		if s.Pos() > at.Pos() || s == at {
+			break
+		}
+		// s contains at
+		inner := func(init ast.Stmt, lists ...[]ast.Stmt) {
+			if init != nil {
+				var last *dtPath
+				saved := d.paths
+				d.stmt(cur, init, func(q *dtPath) { last = q })
+				d.paths = saved
+				if last != nil {
+					cur = last
+				}
+			}
+			for _, l := range lists {
+				if len(l) > 0 && l[0].Pos() <= at.Pos() && at.End() <= l[len(l)-1].End() {
+					cur = d.envBefore(cur, l, at)
+					return
+				}
+			}
+		}
+		switch x := s.(type) {
+		case *ast.BlockStmt:
+			inner(nil, x.List)
+		case *ast.IfStmt:
+			var els []ast.Stmt
+			if x.Else != nil {
+				els = []ast.Stmt{x.Else}
+			}
+			inner(x.Init, x.Body.List, els)
+		case *ast.ForStmt:
+			d.loopUnknown(cur, x)
+			inner(nil, x.Body.List)
+		case *ast.RangeStmt:
+			d.loopUnknown(cur, x)
+			inner(nil, x.Body.List)
+		case *ast.SwitchStmt:
+			var ls [][]ast.Stmt
+			for _, c := range x.Body.List {
+				ls = append(ls, c.(*ast.CaseClause).Body)
+			}
+			inner(x.Init, ls...)
+		case *ast.LabeledStmt:
+			inner(nil, []ast.Stmt{x.Stmt})
+		}
+		break
+	}
+	q := cur.clone()
+	q.Atoms, q.Steps, q.Calls, q.Ret, q.Exit = nil, nil, nil, nil, ""
+	return q
+}
+
+func (d *dtEnum) loopUnknown(p *dtPath, s ast.Stmt) {
+	ast.Inspect(s, func(n ast.Node) bool {
+		if as, ok := n.(*ast.AssignStmt); ok && as.Tok != token.DEFINE {
+			for _, l := range as.Lhs {
+				if id, ok := l.(*ast.Ident); ok {
+					d.bind(p, id, "unknown("+id.Name+")")
+				}
+			}
+		}
+		return true
+	})
+}
+
+// rewrite applies f to every canonical string of the path (atoms, steps, calls, returns).
+func (p *dtPath) rewrite(f func(string) string) {
+	for i := range p.Atoms {
+		p.Atoms[i].Expr = f(p.Atoms[i].Expr)
+	}
+	for i := range p.Steps {
+		p.Steps[i] = f(p.Steps[i])
+	}
+	for i := range p.Ret {
+		p.Ret[i] = f(p.Ret[i])
+	}
+	for i := range p.Calls {
+		p.Calls[i].Recv = f(p.Calls[i].Recv)
+		p.Calls[i].Name = f(p.Calls[i].Name)
+		for j := range p.Calls[i].Args {
+			p.Calls[i].Args[j] = f(p.Calls[i].Args[j])
+		}
+	}
+}
+
+// findIndexLoop returns the first counting loop in fd (any depth) whose bound's canonical form satisfies pred.
+func findIndexLoop(info *types.Info, fd *ast.FuncDecl, pred func(bound string) bool) (stmt ast.Stmt, iv types.Object, body *ast.BlockStmt) {
+	fc := newFuncCanon(info, fd)
+	ast.Inspect(fd.Body, func(n ast.Node) bool {
+		if stmt != nil {
+			return false
+		}
+		if s, ok := n.(ast.Stmt); ok {
+			if v, bound, b, ok := indexLoop(info, s); ok && pred(fc.E(bound)) {
+				stmt, iv, body = s, v, b
+				return false
+			}
+		}
+		return true
+	})
+	return
 }
